@@ -285,6 +285,11 @@ class Ocp(Stage):
 
     def save(self,name):
         self._untranscribe()
+        # An OCP that was edited after a transcription still references that stale transcription
+        # (with its Opti object, which cannot be serialized): drop it, the next query transcribes anew
+        self._untranscribe_recurse(phase=1)
+        for s in self.iter_stages(include_self=True):
+            s._var_augmented = None
         import pickle
         with rockit_pickle_context():
             pickle.dump(self,open(name,"wb"))
